@@ -44,6 +44,7 @@ type startEvent struct {
 	mch         chan imessage
 	once        sync.Once
 	running     atomic.Bool
+	stopped     chan struct{} // closed when the node's goroutine has ended
 	activated   atomic.Bool
 	idGenerator id.IGenerator
 	satisfier   *logic.CatchEventSatisfier
@@ -67,6 +68,7 @@ func newStartEvent(wr *wiring, element *schema.StartEvent, idGenerator id.IGener
 		element:     element,
 		mch:         make(chan imessage, len(wr.incoming)*2+1),
 		activated:   atomic.Bool{},
+		stopped:     make(chan struct{}),
 		idGenerator: idGenerator,
 		satisfier:   logic.NewCatchEventSatisfier(element, wr.eventDefinitionInstanceBuilder),
 	}
@@ -79,6 +81,7 @@ func newStartEvent(wr *wiring, element *schema.StartEvent, idGenerator id.IGener
 
 func (evt *startEvent) run(ctx context.Context, sender tracing.ISenderHandle) {
 	defer sender.Done()
+	defer close(evt.stopped)
 	defer evt.running.Store(false)
 
 	for {
@@ -122,7 +125,11 @@ func (evt *startEvent) ConsumeEvent(ev event.IEvent) (result event.ConsumptionRe
 		result = event.Consumed
 		return
 	}
-	evt.mch <- eventMessage{event: ev}
+	// (the goroutine may end, on cancellation, between the check above and this send)
+	select {
+	case evt.mch <- eventMessage{event: ev}:
+	case <-evt.stopped:
+	}
 	result = event.Consumed
 	return
 }
